@@ -73,11 +73,13 @@ CLAIMS = {
    note=TB + "checks/ref/mldsa.py implements Algorithms 9-21 bit by bit (IntegerToBits / BitsToBytes), independent of the crate's streaming accumulators.",
    tech="Lean 4 round-trip / bijection theorems for sig_decode/sig_encode, bit_pack/bit_unpack and the hint codec (accumulator invariants, induction) + differential execution against a bit-level reference"),
  'C09': dict(cat='proof', ref='DESIGN 5 C09',
-   text="Partial proof + differential execution. Proved in Lean: **every** byte string of public-key length deserialises successfully in both build modes (no rejection, no overflow, no out-of-bounds in the decoder and the verifier precompute), field provenance of deserialised keys (rho / K / tr are the input slices, pk.tr = H(input)), and every accepted private key has its s1, s2, t0 sections inside the ranges the "
-        "serialiser asserts. Not proved: into_bytes . try_from_bytes = id for every input (exact NTT inversion composed with the codecs); decided on every run on all-00 / all-FF / t1 = 1023 / random public keys, private keys with every "
-        "coefficient at either range end, and struct-level equality of generated versus round-tripped keys, in both build profiles.",
+   text="Lean theorems for every byte string (both build modes): every byte string of public-key length deserialises and serialising the resulting struct returns the same bytes (public_key_bytes_round_trip); every private-key byte string that "
+        "deserialisation accepts is returned byte for byte by serialising the resulting struct (private_key_bytes_round_trip). Both go through the NTT-domain representation held in the structs: the butterflies are congruent mod q to exact "
+        "integer specifications inside the overflow envelopes, the inverse specification undoes the forward one (255 table pairs by kernel evaluation), Montgomery factors cancel, the canonical representative equals the small original "
+        "coefficient, and the byte codecs are mutually inverse (C08). Also proved: field provenance (rho / K / tr are the input slices, pk.tr = H(input)). Not proved: the third sentence of the property (a generated key that is serialised "
+        "and deserialised is the same struct, hence behaves identically) - decided on every run by struct-level equality of generated versus round-tripped keys on random and extremal keys, in both build profiles.",
    note=TB + "struct equality is literal equality of every i32 of every field.",
-   tech="Lean 4 proof of field provenance and range facts + byte-exact and struct-exact round trips on extremal and random keys"),
+   tech="Lean 4 proof of both byte round trips through the NTT (congruence to exact specs, inverse-undoes-forward, codec bijection) + struct-exact differential round trips of generated keys"),
  'C10': dict(cat='proof', ref='DESIGN 5 C10',
    text="Lean theorems for all byte strings (repaired tree): whatever bit_unpack accepts lies in [-a, b]; every private key accepted by sk_decode / expand_private has all s1, s2 coefficients in [-eta, eta] and t0 in [-2^12+1, 2^12], "
         "which are exactly the ranges sk_encode's self-checks demand; sk_decode never faults on any byte string of private-key length (accumulator-invariant induction over the bytes: temp < 2^bit_index, bit_index < bitlen after each byte, so no shift, subtraction or index can fault). The pinned-tree definition is refuted by kernel evaluation on a concrete accepted field (F1) and the repaired one rejects it. Both directions of the property are a theorem: for each parameter set and every byte string of private-key length, sk_decode returns Ok exactly when every bitlen(2 eta)-bit field of the s1 and s2 sections is at most 2 eta, and Err otherwise (sk_decode_accepts_exactly_the_in_range_keys). "
